@@ -351,6 +351,33 @@ pub fn evaluate(t: &Target, f: &Fault, r: &mut Rng) -> (CheckOutcome, Vec<String
     (chk, bad, how)
 }
 
+/// the documented rotation of id subsets, (1,m) .. (m,m) in separate runs, covers every pack: a damaged pack that the
+/// full read reports must be reported by at least one of the m partial runs
+pub fn rotation_misses(t: &Target, f: &Fault, r: &mut Rng) -> Option<String> {
+    let rk = RawKey::from_master(&t.key);
+    let mut st = t.base.clone();
+    f.apply(&mut st, &rk, r);
+    let m = *r.pick(&[2u32, 3, 5]);
+    let mut detected = 0;
+    for n in 1..=m {
+        let uni = Universe::from_states(vec![st.clone()]);
+        uni.lock().recording = false;
+        let env = Env::single(uni, t.key.clone());
+        let res = catch(|| {
+            env.open().and_then(|repo| {
+                repo.check(rustic_core::CheckOptions::default().read_data(true).read_data_subset(rustic_core::ReadSubsetOption::IdSubSet((n, m))))
+                    .map(|res| res.0.iter().filter(|(l, _)| format!("{l:?}") == "Error").count())
+                    .map_err(|e| errstr(&e))
+            })
+        });
+        match res {
+            Ok(Ok(0)) => {}
+            _ => detected += 1,
+        }
+    }
+    (detected == 0).then(|| format!("none of the {m} runs of check(read_data, subset (n,{m}), n = 1..{m}) reports the damage"))
+}
+
 pub fn run(ctx: &Ctx) -> (Report, Meta) {
     let n_targets = ctx.tier.pick(5u64, 60);
     let full = ctx.tier == crate::evidence::Tier::Thorough;
@@ -403,6 +430,13 @@ pub fn run(ctx: &Ctx) -> (Report, Meta) {
                 json!({"repository": t.desc, "target": ti, "fault": f.desc()}),
             );
         }
+        // pack damage that the full read reports: the subset rotation has to report it in one of its runs
+        if chk != CheckOutcome::Clean && matches!(f, Fault::Flip(FileType::Pack, ..) | Fault::Truncate(FileType::Pack, ..) | Fault::Extend(FileType::Pack, ..)) && r.chance(1, 6) {
+            rep.count("subset_rotations_run", 1);
+            if let Some(why) = rotation_misses(t, f, r) {
+                rep.violation(i, format!("subset-rotation-misses:{kind}"), format!("{}: {why}", f.desc()), json!({"repository": t.desc, "target": ti, "fault": f.desc()}));
+            }
+        }
         if i % 997 == 0 {
             rep.sample(json!({"fault": f.desc(), "check": format!("{chk:?}").chars().take(160).collect::<String>(), "snapshots_not_restorable": bad.len()}));
         }
@@ -410,7 +444,7 @@ pub fn run(ctx: &Ctx) -> (Report, Meta) {
     rep.merge(res);
     let meta = Meta {
         level: "fault_enumeration",
-        rule: "targets = repositories from generated histories (2-4 backups, optionally forget+prune; one in three with the fixed-size chunker and no compression so that packs share a layout; tree packs often one root tree each). For every stored snapshot/index/pack file: remove; truncate to {0,1,15,16,31,32,len/2,len-1,len-4,len-16}; append 1 byte / a copy of itself; flip one bit at every structural position (nonce, first/last body byte, MAC, each blob's nonce/body/MAC, header nonce/body/MAC, each length-field byte) and random ones; replace by siblings of the same type; index files re-encrypted with one pack dropped / one blob entry dropped / duplicated / offset+1 / length-1 / type flipped / id changed / two ids exchanged. For each fault check(read_data) - one time in three with trust_cache, which must not matter without a cache - runs and, on the SAME state, every snapshot is read completely and compared with its content before the fault. Violation iff check is clean and a snapshot is unreadable or reads different content. distinct_nontrivial = distinct (fault kind, check outcome, restorable?)".to_string(),
+        rule: "targets = repositories from generated histories (2-4 backups, optionally forget+prune; one in three with the fixed-size chunker and no compression so that packs share a layout; tree packs often one root tree each). For every stored snapshot/index/pack file: remove; truncate to {0,1,15,16,31,32,len/2,len-1,len-4,len-16}; append 1 byte / a copy of itself; flip one bit at every structural position (nonce, first/last body byte, MAC, each blob's nonce/body/MAC, header nonce/body/MAC, each length-field byte) and random ones; replace by siblings of the same type; index files re-encrypted with one pack dropped / one blob entry dropped / duplicated / offset+1 / length-1 / type flipped / id changed / two ids exchanged. For each fault check(read_data) - one time in three with trust_cache, which must not matter without a cache - runs and, on the SAME state, every snapshot is read completely and compared with its content before the fault. Violation iff check is clean and a snapshot is unreadable or reads different content; for a sample of damaged packs the documented subset rotation (1,m)..(m,m), m in {2,3,5}, must report the damage in at least one of its m runs. distinct_nontrivial = distinct (fault kind, check outcome, restorable?)".to_string(),
         exhaustive: full,
         assumptions: vec![
             "exhaustive (thorough tier) = all listed fault kinds on every file of the target repositories; the quick tier samples flip positions and sibling pairs".to_string(),
